@@ -224,13 +224,14 @@ func zzRegArtifact(i int, subject descriptor.Descriptor) manifest.Manifest {
 }
 
 type zzRegWorld struct {
-	rg    *Reg
-	srv   *zzRegistry
-	r     ref.Ref
-	rSubj ref.Ref
-	subj  descriptor.Descriptor
-	arts  []manifest.Manifest
-	live  []bool
+	rg                      *Reg
+	srv                     *zzRegistry
+	r                       ref.Ref
+	rSubj                   ref.Ref
+	subj                    descriptor.Descriptor
+	arts                    []manifest.Manifest
+	live                    []bool
+	orderSet, filteredFirst bool
 }
 
 // zzRegSetup draws the registry configuration: referrers API or fallback tag,
@@ -270,6 +271,37 @@ func zzRegSetup() *zzRegWorld {
 // registry without the API, the raw content of the fallback tag with the set
 // of live artifacts.
 func (w *zzRegWorld) check(ctx context.Context) {
+	// the order of the two listings is a choice of the run: the first one after an
+	// update meets a cold cache
+	if !w.orderSet {
+		w.orderSet, w.filteredFirst = true, zzBool("filtered_listing_first")
+	}
+	if w.filteredFirst {
+		w.checkFiltered(ctx)
+	}
+	w.checkAll(ctx)
+	if !w.filteredFirst {
+		w.checkFiltered(ctx)
+	}
+}
+
+func (w *zzRegWorld) checkFiltered(ctx context.Context) {
+	rlF, err := w.rg.ReferrerList(ctx, w.rSubj, scheme.WithReferrerMatchOpt(descriptor.MatchOpt{ArtifactType: zzSBOM}))
+	zzAssert(err == nil, "filtered_list_succeeds")
+	wantF := 0
+	if w.live[0] {
+		wantF++
+	}
+	if w.live[2] {
+		wantF++
+	}
+	zzAssert(len(rlF.Descriptors) == wantF, "filter_selects_exactly_matching")
+	for _, d := range rlF.Descriptors {
+		zzAssert(d.ArtifactType == zzSBOM, "filter_selects_exactly_matching")
+	}
+}
+
+func (w *zzRegWorld) checkAll(ctx context.Context) {
 	rl, err := w.rg.ReferrerList(ctx, w.rSubj)
 	zzAssert(err == nil, "list_succeeds")
 	zzReach("listed")
@@ -293,19 +325,6 @@ func (w *zzRegWorld) check(ctx context.Context) {
 		}
 	}
 	zzAssert(len(rl.Descriptors) == nLive, "nothing_else_listed")
-	rlF, err := w.rg.ReferrerList(ctx, w.rSubj, scheme.WithReferrerMatchOpt(descriptor.MatchOpt{ArtifactType: zzSBOM}))
-	zzAssert(err == nil, "filtered_list_succeeds")
-	wantF := 0
-	if w.live[0] {
-		wantF++
-	}
-	if w.live[2] {
-		wantF++
-	}
-	zzAssert(len(rlF.Descriptors) == wantF, "filter_selects_exactly_matching")
-	for _, d := range rlF.Descriptors {
-		zzAssert(d.ArtifactType == zzSBOM, "filter_selects_exactly_matching")
-	}
 	if !w.srv.hasAPI {
 		// raw storage: the fallback tag holds exactly the live set (or is gone when empty)
 		zzReach("fallback_tag_inspected")
